@@ -29,7 +29,7 @@ TECHNIQUE = "explicit-state BFS over tree-operation histories on the real PhyloN
 RULE = (
     "initial trees = every unlabeled shape with every internal node >= 2 children on 2..n tips x 4 schemes "
     "(distinct dyadic lengths + named internals; reversed dyadic lengths + unnamed internals; all lengths 1 (ties, "
-    "midpoint on a node); names needing newick quoting). From every canonical state (ordered structure, names, "
+    "midpoint on a node); names needing newick quoting; for <= 3 tips also names starting / ending with a quote). From every canonical state (ordered structure, names, "
     "name_loaded, params) every operation of the alphabet is executed once: rooted_at(every internal), "
     "rooted_with_tip(every tip), root_at_midpoint, unrooted, sorted x2, get_sub_tree(every subset of tips, |S|>=1, "
     "plus sets containing internal names) x ignore_missing x keep_root x tipsonly, copy x2, newick round trips x "
@@ -54,7 +54,8 @@ SHARD_TIMEOUT = {"quick": 900, "thorough": 3600}
 CHECK_ALIASING = True
 
 PLAIN = ["a", "b", "c", "d", "e", "f", "g"]
-NASTY = ["a b", "c_d", "e'f", "g(h)", "i:j,k", '[l];"m"', "n  o"]
+NASTY = ["a b", "c_d", "e'f", "g(h)", "i:j,k", '[l];"m"', "n  o"]  # blank, '_', inner quote, reserved characters
+QUOTES = ["'c d", "e f'", "x'y z"]  # quote at the start / end of a name (used for <= 3 tips)
 MISSING = "zz"
 BIFURCATING_EPS = 2.0 ** -6  # positive and dyadic: the property quantifies over positive branch lengths
 
@@ -63,25 +64,28 @@ def bounds(tier):
     return {
         "quick": {"max_tips": 5, "depth": 2, "dist_pairs_tips": 5, "nodedup_selfcheck": {"max_tips": 3, "depth": 2}},
         "thorough": {"max_tips": 6, "depth": 3, "depth_at_max_tips": 2, "dist_pairs_tips": 6,
+                     "schemes_at_5_and_6_tips": ["pow2-named", "ones-unnamed"],
+                     "other_schemes_at_5_tips_depth": 2,
                      "nodedup_selfcheck": {"max_tips": 4, "depth": 2}},
     }[tier]
 
 
 # ----------------------------------------------------------------------------- initial trees
 SCHEMES = ("pow2-named", "pow2rev-unnamed", "ones-unnamed", "nasty-named")
+SMALL_SCHEMES = ("quotes-named",)  # only for <= 3 tips
 
 
 def initial_model(shape, scheme):
     """model tree for an unlabeled shape under a naming / length scheme"""
     n_edges = sum(1 for _ in _walk_shape(shape)) - 1
-    if scheme in ("pow2-named", "nasty-named"):
+    if scheme in ("pow2-named", "nasty-named", "quotes-named"):
         lens = [2.0 ** (k - 2) for k in range(n_edges)]
     elif scheme == "pow2rev-unnamed":
         lens = [2.0 ** (k - 2) for k in range(n_edges)][::-1]
     else:
         lens = [1.0] * n_edges
-    names = NASTY if scheme == "nasty-named" else PLAIN
-    named = scheme in ("pow2-named", "nasty-named")
+    names = NASTY if scheme == "nasty-named" else (QUOTES if scheme == "quotes-named" else PLAIN)
+    named = scheme in ("pow2-named", "nasty-named", "quotes-named")
     tip_i = itertools.count()
     int_i = itertools.count(1)
     len_i = iter(lens)
@@ -126,6 +130,25 @@ def real_key(t):
 
 
 def make_real(model):
+    """the real tree for a model tree, built node by node with the TreeBuilder callback the newick parser
+    uses (so that initial trees do not depend on the parser; the parser is exercised by the round-trip and
+    'reparse' operations)"""
+    from cogent3.core.tree import TreeBuilder
+
+    create = TreeBuilder().create_edge
+
+    def build(n):
+        children = [build(c) for c in n[2]]
+        params = {} if n[1] is None else {"length": n[1]}
+        return create(children, n[0], params)
+
+    tree = build(model)
+    if not tree.name_loaded:
+        tree.name = "root"
+    return tree
+
+
+def parse_real(model):
     from cogent3 import make_tree
 
     s = tg.newick(model)
@@ -314,7 +337,7 @@ def apply_real(t, op):
         blank = any(" " in (n.name or "") for n in t.traverse())
         return make_tree(t.get_newick(with_distances=False), underscore_unmunge=blank)
     if k == "reparse":
-        return make_real(from_real(t))
+        return parse_real(from_real(t))
     if k == "json":
         return deserialise_object(t.to_json())
     if k == "bifurcating":
@@ -371,8 +394,18 @@ def expectation(m, op):
         e["splits"] = "superset"
         e["paths"] = False  # new edges of length eps lengthen paths by construction
     elif k == "json":
-        if any(ch in RESERVED - {"'", "_"} for x in names if x is not None for ch in x):
-            e["cls"] = "a name contains a newick-reserved character"
+        # to_rich_dict writes its newick without escaping names
+        if any(ch in RESERVED - {"'", "_"} for x in names if x is not None for ch in x) or any(
+            (x or "").startswith("'") for x in names
+        ):
+            e["cls"] = "a name needs newick quoting"
+        named = [x for x in names[1:] if x is not None]
+        if len(set(named)) != len(named):
+            e["cls"] = "duplicate node names"
+        if any(x is None for x in names[1:]):
+            e["cls"] = "node with name None"  # edge attributes are keyed by node name
+    if k in ("newick", "newick_nolen", "reparse") and any((x or "").startswith("'") for x in names):
+        e["cls"] = "a name starts with a single quote"
     elif k == "scale":
         e["paths"] = False
         e["judged_errors"] = False
@@ -433,7 +466,7 @@ def check_result(acc, init, hist, op, ctx, e, res, label):
     if sorted(map(str, got_tips)) != sorted(map(str, e["tips"])) or len(set(got_tips)) != len(got_tips):
         _fail(acc, f"{label}: tip set [{cls}]", init, hist, op,
               {"got": sorted(map(str, got_tips)), "want": sorted(map(str, e["tips"]))})
-        return mr, True
+        return mr, "tips"
     if e["splits"]:
         want = tg.restrict_splits(ctx.splits, e["keep"])
         got = tg.splits(mr)
@@ -442,13 +475,12 @@ def check_result(acc, init, hist, op, ctx, e, res, label):
             bad = True
             _fail(acc, f"{label}: unrooted topology [{cls}]", init, hist, op,
                   {"got": tg.splits_jsonable(got), "want": tg.splits_jsonable(want)})
-    if e["paths"] and tg.has_all_lengths(m):
+    if e["paths"] and all(v is not None for v in ctx.sums.values()):
         want = tg.restrict_sums(ctx.sums, e["keep"])
         got = tg.path_sums(mr)
         if any(v is None for v in got.values()):
-            bad = True
-            unnamed = any(n[0] is None for n in tg.nodes(m)[1:])
-            _fail(acc, f"{label}: branch length on a tip-to-tip path lost [{'node with name None' if unnamed else cls}]",
+            bad = "lost"
+            _fail(acc, f"{label}: branch length on a tip-to-tip path lost [{cls}]",
                   init, hist, op, {"result": tg.newick(mr), "receiver": tg.newick(m)})
         else:
             if got != want:
@@ -553,6 +585,10 @@ def do_transition(acc, init, hist, op, ctx=None):
         acc.outcome((k, "unjudged"))
         return None, clean
     mr, bad = check_result(acc, init, hist, op, ctx, e, res, label)
+    if bad in ("tips", "lost"):
+        # the result does not even have the intended tips / all lengths: reported, not explored further
+        acc.outcome((k, "wrong " + bad, e["cls"]))
+        return None, clean
     if CHECK_ALIASING and k in NEW_OPS and res is not recv:
         shared = shares_params(res, live)
         if shared:
@@ -643,7 +679,7 @@ def bfs(init, depth, acc, dedup=True, chunk=0, of=1):
     # the parser judged by the model's own writer
     m0 = from_real(t0)
     if tg.tips(m0) != tg.tips(init) or tg.splits(m0) != tg.splits(init) or tg.path_sums(m0) != tg.path_sums(init):
-        acc.fail("make_tree: parsed tree differs from the newick written by the model",
+        acc.fail("harness: initial tree built with TreeBuilder.create_edge differs from the model",
                  {"kind": "state", "init": tg.to_jsonable(init), "hist": []}, {"got": tg.newick(m0), "want": tg.newick(init)})
     for d in range(depth + 1):
         nxt = []
@@ -808,14 +844,20 @@ def shards(tier, seed):
     out = []
     for n in range(2, b["max_tips"] + 1):
         depth = b["depth"]
-        if tier == "thorough" and n == b["max_tips"]:
-            depth = b["depth_at_max_tips"]
-        # large searches are cut by the index of the first operation (every first operation is in exactly one chunk)
-        of = 1
+        schemes = SCHEMES
+        if tier == "thorough" and n >= 5:
+            # the two widest searches are run for the two structurally different schemes only
+            schemes = b["schemes_at_5_and_6_tips"]
+            if n == b["max_tips"]:
+                depth = b["depth_at_max_tips"]
         for si, _shape in enumerate(tg.shapes(n)):
-            for scheme in SCHEMES:
-                for c in range(of):
-                    out.append({"part": "bfs", "n": n, "shape": si, "scheme": scheme, "depth": depth, "chunk": c, "of": of})
+            for scheme in tuple(schemes) + (SMALL_SCHEMES if n <= 3 else ()):
+                out.append({"part": "bfs", "n": n, "shape": si, "scheme": scheme, "depth": depth})
+        if tier == "thorough" and n == 5:
+            for si, _shape in enumerate(tg.shapes(n)):
+                for scheme in SCHEMES:
+                    if scheme not in schemes:
+                        out.append({"part": "bfs", "n": n, "shape": si, "scheme": scheme, "depth": 2})
     sc = b["nodedup_selfcheck"]
     for n in range(2, sc["max_tips"] + 1):
         for si, _shape in enumerate(tg.shapes(n)):
@@ -823,7 +865,7 @@ def shards(tier, seed):
     N = b["dist_pairs_tips"]
     for n in range(2, N + 1):
         for group in ("rooted", "unrooted"):
-            nch = 1 if n < 5 else (16 if n == 5 else 128)
+            nch = 1 if n < 5 else (16 if n == 5 else (256 if group == "rooted" else 64))
             for c in range(nch):
                 out.append({"part": "pairs", "n": n, "group": group, "chunk": c, "of": nch, "all_methods": n <= 4})
     for n in range(2, 5):
@@ -843,10 +885,13 @@ def run_shard(spec, acc):
             a1, a2 = Acc(), Acc()
             bfs(init, spec["depth"], a1, dedup=True)
             bfs(init, spec["depth"], a2, dedup=False)
-            if set(a1.failures) != set(a2.failures):
+            # (the "derived tree" signature depends on the whole history, not on the state, and is left out)
+            hist_dep = "in-place edit of a derived tree"
+            f1 = {x for x in a1.failures if not x.startswith(hist_dep)}
+            f2 = {x for x in a2.failures if not x.startswith(hist_dep)}
+            if f1 != f2:
                 acc.fail("harness: merging states by canonical key changes the verdict", {"shard": spec},
-                         {"only with merging": sorted(set(a1.failures) - set(a2.failures)),
-                          "only without merging": sorted(set(a2.failures) - set(a1.failures))})
+                         {"only with merging": sorted(f1 - f2), "only without merging": sorted(f2 - f1)})
             acc.merge(a2)
             acc.count("nodedup_selfcheck_histories", a2.transitions)
         else:
@@ -869,7 +914,7 @@ def replay(case):
         if not case["hist"]:
             m0 = from_real(chain[-1])
             if tg.tips(m0) != tg.tips(init) or tg.splits(m0) != tg.splits(init) or tg.path_sums(m0) != tg.path_sums(init):
-                acc.fail("make_tree: parsed tree differs from the newick written by the model", case, {"got": tg.newick(m0)})
+                acc.fail("harness: initial tree built with TreeBuilder.create_edge differs from the model", case, {"got": tg.newick(m0)})
         check_state(acc, init, case["hist"], chain[-1])
     elif kind == "pair":
         def tup(h):
